@@ -1161,6 +1161,120 @@ class Gen:
         f.probe = t
         return f
 
+    def feature_probe_function(self, idx):
+        """one operator of a newer language feature on the arguments, called at its boundaries: shifts, `**`, flags, decimals"""
+        r = self.r
+        W = 2 ** 256
+        kinds = []
+        if "shifts" in self.feat:
+            kinds += ["shift"] * 2
+        if "pow" in self.feat:
+            kinds += ["pow_exp", "pow_base"] * 2
+        if self.flag_types:
+            kinds += ["flag"] * 4
+        if "decimals" in self.feat:
+            kinds += ["dec"] * 2
+        if not kinds:
+            return None
+        kind = r.choice(kinds)
+        if kind == "shift":
+            t = r.choice([U256, ("int", 256, True)])
+            lo, hi = int_bounds(t)
+            left = r.random() < 0.5
+            f = Fun(f"p{idx}", [("a0", t), ("a1", U256)], t,
+                    [S("return", e=E("shift", t, left=left, a=E("var", t, name="a0", id=0), b=E("var", U256, name="a1", id=1)))], True)
+            xs = [1, 3, hi, hi - 1, lo, lo + 1, hi // 2 + 1, (-1 if lo < 0 else 2), (-8 if lo < 0 else 8), 2 ** 254]
+            ys = [0, 1, 7, 8, 254, 255, 256, 257, 2 ** 255]
+            f.probe_calls = [[r.choice(xs) % W, r.choice(ys)] for _ in range(7)]
+        elif kind == "pow_exp":
+            t = self.int_type()
+            lo, hi = int_bounds(t)
+            e_ = r.choice([0, 1, 2, 2, 3, 4, 5])
+            f = Fun(f"p{idx}", [("a0", t)], t,
+                    [S("return", e=E("bin", t, op="Pow", a=E("var", t, name="a0", id=0), b=E("const", t, v=e_)))], True)
+            root = 1
+            if e_ >= 1:
+                root = int(round(hi ** (1.0 / e_))) if hi < 2 ** 60 else 1 << (hi.bit_length() // e_)
+                while root ** e_ > hi:
+                    root -= 1
+                while (root + 1) ** e_ <= hi:
+                    root += 1
+            xs = [0, 1, 2, root, root + 1, root - 1, hi] + ([-1, -2, -root, -root - 1, -root + 1, lo] if lo < 0 else [])
+            f.probe_calls = [[min(max(x, lo), hi) % W] for x in r.sample(xs, min(6, len(xs)))]
+        elif kind == "pow_base":
+            t = self.int_type()
+            lo, hi = int_bounds(t)
+            base = r.choice([2, 2, 3, 5, 10] + ([-2, -3] if lo < 0 else []))
+            if not (lo <= base <= hi):
+                base = 2
+            x = E("var", t, name="a0", id=0)
+            ex = E("max", t, a=x, b=E("const", t, v=0)) if lo < 0 else x
+            f = Fun(f"p{idx}", [("a0", t)], t, [S("return", e=E("bin", t, op="Pow", a=E("const", t, v=base), b=ex))], True)
+            m = 0
+            while abs(base) ** (m + 1) <= hi:
+                m += 1
+            xs = [0, 1, m, m + 1, m - 1, m + 2, hi]
+            f.probe_calls = [[min(max(x_, lo), hi) % W] for x_ in r.sample(xs, 6)]
+        elif kind == "flag":
+            ft = r.choice(self.flag_types)
+            n = ft[2]
+            a0, a1 = E("var", ft, name="a0", id=0), E("var", ft, name="a1", id=1)
+            member = E("const", ft, v=1 << r.randrange(n))
+            sub = r.choice(["not", "or", "and", "xor", "in", "notin", "member_in", "eq"])
+            if sub == "not":
+                ret, e = ft, E("flagnot", ft, a=a0)
+            elif sub in ("or", "and", "xor"):
+                ret, e = ft, E("bin", ft, op={"or": "BOr", "and": "BAnd", "xor": "BXor"}[sub], a=a0, b=a1)
+            elif sub in ("in", "notin"):
+                ret, e = BOOL, E("flagin", BOOL, neg=(sub == "notin"), a=a0, b=a1)
+            elif sub == "member_in":
+                ret, e = BOOL, E("flagin", BOOL, neg=False, a=member, b=a0)
+            else:
+                ret, e = BOOL, E("cmp", BOOL, op=r.choice(["Eq", "Ne"]), a=a0, b=a1)
+            f = Fun(f"p{idx}", [("a0", ft), ("a1", ft)], ret, [S("return", e=e)], True)
+            top = 2 ** n
+            f.probe_calls = [[r.randrange(top), r.randrange(top)] for _ in range(5)] + [[top - 1, 0], [0, 0], [top, 1]]
+        else:
+            t = DEC
+            lo, hi = int_bounds(t)
+            a0, a1 = E("var", t, name="a0", id=0), E("var", t, name="a1", id=1)
+            sub = r.choice(["mul", "div", "mod", "add", "toint", "floor", "ceil", "fromint", "cmp"])
+            I256 = ("int", 256, True)
+            if sub in ("mul", "div", "mod", "add"):
+                ret, e = t, E("bin", t, op={"mul": "DMul", "div": "DDiv", "mod": "Mod", "add": "Add"}[sub], a=a0, b=a1)
+                params = [("a0", t), ("a1", t)]
+            elif sub == "toint":
+                it = self.int_type()
+                ret, e, params = it, E("dec", it, mode="FromDec", a=a0), [("a0", t)]
+            elif sub in ("floor", "ceil"):
+                ret, e, params = I256, E("dec", I256, mode="Floor" if sub == "floor" else "Ceil", a=a0), [("a0", t)]
+            elif sub == "fromint":
+                it = self.int_type()
+                ret, e, params = t, E("dec", t, mode="ToDec", a=E("var", it, name="a0", id=0)), [("a0", it)]
+            else:
+                ret, e, params = BOOL, E("cmp", BOOL, op=r.choice(CMPS), a=a0, b=a1), [("a0", t), ("a1", t)]
+            f = Fun(f"p{idx}", params, ret, [S("return", e=e)], True)
+            sc = DEC_SCALE
+
+            def dv():
+                return r.choice([0, 1, -1, sc, -sc, sc + 1, 15 * sc // 10, -15 * sc // 10, 3 * sc, 7, -7, sc // 3, hi, lo, hi - 1,
+                                 255 * sc, 256 * sc, 128 * sc, -129 * sc, r.randrange(-10 ** 14, 10 ** 14)])
+            calls = []
+            for _ in range(7):
+                row = []
+                for (_n, pt) in params:
+                    if pt == t:
+                        row.append(dv() % W)
+                    else:
+                        plo, phi = int_bounds(pt)
+                        row.append(r.choice([0, 1, phi, plo, 5, hi // sc, hi // sc + 1, lo // sc, lo // sc - 1, -3 if plo < 0 else 3]) % W
+                                   if True else 0)
+                        row[-1] = min(max(row[-1] if row[-1] < 2 ** 255 else row[-1] - W, plo), phi) % W
+                calls.append(row)
+            f.probe_calls = calls
+        f.probe = f.params[0][1]
+        return f
+
     def narrow_probe_function(self, idx):
         """range-narrowed arithmetic: operands narrowed by %, &, min, a comparison guard or an assert, then + - * on them, with
         inputs at the narrowing boundaries (stresses range analysis / overflow-check elimination in the optimiser)"""
@@ -1426,6 +1540,9 @@ class Gen:
                 p.exts.append(self.bytes_probe_function(len(p.exts)))
             p.exts.append(self.narrow_probe_function(len(p.exts)))
             p.exts.append(self.constfold_probe_function(len(p.exts)))
+            fp = self.feature_probe_function(len(p.exts))
+            if fp is not None:
+                p.exts.append(fp)
         return p
 
     # ---------------------------------------------------------------- calls
